@@ -8,7 +8,7 @@
 
    [p_ins], [p_del], [p_get], ... are the same algorithms as C/Node.v + C/Tree.v written
    on key/value/child LISTS (the vocabulary of Rust/Tree.v's [ptree], so that the lemma
-   library of the Rust model applies).  C/SimNode.v and C/SimTree.v prove that under [wf]
+   library of the Rust model applies).  C/SimLeaf.v, C/SimBranch.v and C/SimTree.v prove that under [wf]
    the array code computes exactly these functions and never leaves its arrays; all
    B+-tree reasoning then happens on the list level.  Definitions only. *)
 From BPT Require Import Common.Base Common.AMap Rust.Tree C.Node C.Tree.
